@@ -221,6 +221,9 @@ func exec(t *thread, c cmd) kjob.Event {
 			ev.Results = append(ev.Results, r)
 		}
 		return ev
+	case "outer-enosys-thread":
+		// the ENOSYS fault for the calling thread only (works whatever filters other threads carry)
+		return kjob.Event{Step: c.index, Ev: "outer-enosys", Tid: gettid(), Err: installEnosysHere(0)}
 	case "status":
 		return kjob.Event{Step: c.index, Ev: "thread-status", Tid: gettid(), Status: []kjob.ThreadStatus{statusOf(gettid())}}
 	}
@@ -365,6 +368,18 @@ func allStatus() []kjob.ThreadStatus {
 var stopSpinners int32
 
 func installEnosysFilter() string {
+	res := make(chan string, 1)
+	go func() {
+		runtime.LockOSThread()
+		defer runtime.UnlockOSThread()
+		res <- installEnosysHere(1)
+	}()
+	return <-res
+}
+
+// installEnosysHere installs, on the calling thread (flags: 1 = and on all others), a filter that
+// answers ENOSYS to seccomp(2) and allows everything else.
+func installEnosysHere(flags uintptr) string {
 	nr := uint32(317)
 	if runtime.GOARCH == "386" {
 		nr = 354
@@ -376,22 +391,14 @@ func installEnosysFilter() string {
 		{Code: 0x06, K: 0x7fff0000},       // ret ALLOW
 	}
 	fp := syscall.SockFprog{Len: uint16(len(prog)), Filter: &prog[0]}
-	res := make(chan string, 1)
-	go func() {
-		runtime.LockOSThread()
-		defer runtime.UnlockOSThread()
-		if _, _, e := syscall.RawSyscall6(syscall.SYS_PRCTL, 38, 1, 0, 0, 0, 0); e != 0 {
-			res <- "prctl: " + e.Error()
-			return
-		}
-		r, _, e := syscall.RawSyscall(uintptr(nr), 1, 1 /* TSYNC */, uintptr(unsafe.Pointer(&fp)))
-		if e != 0 || r != 0 {
-			res <- fmt.Sprintf("seccomp: ret %d errno %v", r, e)
-			return
-		}
-		res <- ""
-	}()
-	return <-res
+	if _, _, e := syscall.RawSyscall6(syscall.SYS_PRCTL, 38, 1, 0, 0, 0, 0); e != 0 {
+		return "prctl: " + e.Error()
+	}
+	r, _, e := syscall.RawSyscall(uintptr(nr), 1, flags, uintptr(unsafe.Pointer(&fp)))
+	if e != 0 || r != 0 {
+		return fmt.Sprintf("seccomp: ret %d errno %v", r, e)
+	}
+	return ""
 }
 
 func run(job *kjob.Job) {
@@ -445,7 +452,7 @@ func run(job *kjob.Job) {
 				done <- kjob.Event{Step: i, Ev: "control", Tid: before, TidAfter: after, Migrated: before != after}
 			}()
 			emit(<-done)
-		case "load", "supported", "nnp", "probe", "status":
+		case "load", "supported", "nnp", "probe", "status", "outer-enosys-thread":
 			emit(kjob.Event{Step: i, Ev: "begin:" + st.Op, Idx: st.Thread})
 			if st.Thread < 0 {
 				done := make(chan kjob.Event, 1)
